@@ -3,6 +3,8 @@ CONSTANTS MaxItems = 3
  MaxSub = 0
  MaxBlocks = 0
  MaxDepth = 1
+ MaxLeaves = 99
+ Lean = FALSE
  Budget = 2
  IdOffs <- IdOffs3
  Rules = {"assume", "implies_intr", "substitution", "sorry", ""}
